@@ -1,3 +1,153 @@
-import TenpyModel.C19.Variants
-/-! placeholder, replaced below -/
-theorem C19_placeholder_PropsOrder : True := trivial
+import TenpyModel.C19.OrderProofs
+/-!
+# C19 — orderings: property theorems
+
+"Every named ordering is a permutation of the grid": for any dimension and any (positive) sizes,
+the rows produced by `get_order` (any snake winding, any priority), `get_order_grouped` (any
+partition of the unit cell into groups, any priority), the `'folded'` orders of Chain / Ladder /
+NLegLadder, and every string accepted by the `ordering` methods of the lattice classes list every
+grid point `(x_0, ..., x_{D-1}, u)` exactly once (`List.Perm _ (cstyle shape)`, `cstyle` being
+`np.mgrid`).  `C19_order_gridOrder` feeds this into the index-map and coupling theorems.
+-/
+open TenpyModel.C19
+
+/-- **`get_order(shape, snake_winding, priority)`** is a permutation of the grid, for every snake
+winding and every priority vector of the right length (`np.argsort(priority)` is modelled by the
+stable sort; any result that is a permutation of `range(len(shape))` would do). -/
+theorem C19_order_perm (shape : List Nat) (snake : List Bool) (prio : Option (List Int))
+    (hpos : ∀ L ∈ shape, 0 < L) (hp : ∀ p, prio = some p → p.length = shape.length) :
+    (getOrder shape snake prio).Perm (cstyle shape) :=
+  getOrder_perm shape snake prio hpos hp
+
+/-- **`get_order_grouped(shape, groups, priority)`** is a permutation of the grid whenever `groups`
+is a partition (in any order) of the index range of the direction with the highest priority
+(the unit cell, for `priority=None`). -/
+theorem C19_order_grouped_perm (shape : List Nat) (groups : List (List Nat)) (prio : Option (List Int))
+    (h2 : 2 ≤ shape.length) (hp : ∀ p, prio = some p → p.length = shape.length)
+    (hg : groups.flatten.Perm (List.range
+      ((match prio with
+        | none => shape
+        | some p => gather 0 shape (argsort p)).getD (shape.length - 1) 0))) :
+    (getOrderGrouped shape groups prio).Perm (cstyle shape) :=
+  getOrderGrouped_perm shape groups prio h2 hp hg
+
+namespace TenpyModel.C19
+
+theorem intRangeDown_length (n : Nat) : (intRangeDown n).length = n + 1 := by simp [intRangeDown]
+
+theorem baseOrdering_name_perm (shape : List Nat) (s : String) (o : List (List Nat))
+    (hne : shape ≠ []) (hpos : ∀ L ∈ shape, 0 < L) (h : baseOrdering shape (.name s) = some o) :
+    o.Perm (cstyle shape) := by
+  have hlen : 0 < shape.length := List.length_pos_iff.2 hne
+  have hp : ∀ p, some (intRangeDown (shape.length - 1)) = some p → p.length = shape.length := by
+    intro p hp'; cases hp'; rw [intRangeDown_length]; omega
+  simp only [baseOrdering] at h
+  split at h
+  · cases h; exact getOrder_perm shape _ none hpos (by intro p hp'; cases hp')
+  · split at h
+    · cases h; exact getOrder_perm shape _ _ hpos hp
+    · split at h
+      · cases h; exact getOrder_perm shape _ none hpos (by intro p hp'; cases hp')
+      · split at h
+        · cases h; exact getOrder_perm shape _ _ hpos hp
+        · cases h
+
+/-- the shapes `Ls + (Lu,)` a lattice class can have -/
+def ShapeFor : Cls → List Nat → Prop
+  | .chain, s => ∃ L, s = [L, 1]
+  | .ladder, s => ∃ L, s = [L, 2]
+  | .nleg, s => ∃ L Lu, s = [L, Lu]
+  | .square, s => ∃ Lx Ly, s = [Lx, Ly, 1]
+  | .triangular, s => ∃ Lx Ly, s = [Lx, Ly, 1]
+  | .honeycomb, s => ∃ Lx Ly, s = [Lx, Ly, 2]
+  | .kagome, s => ∃ Lx Ly, s = [Lx, Ly, 3]
+  | .lattice, s => s ≠ []
+  | .simple, s => s ≠ []
+
+theorem shapeFor_ne {cls : Cls} {shape : List Nat} (h : ShapeFor cls shape) : shape ≠ [] := by
+  cases cls <;> simp only [ShapeFor] at h
+  all_goals first
+    | exact h
+    | (obtain ⟨a, rfl⟩ := h; simp)
+    | (obtain ⟨a, b, rfl⟩ := h; simp)
+
+end TenpyModel.C19
+
+/-- **Every named ordering of every lattice class is a permutation of the grid**: whatever string
+`cls.ordering(name)` accepts (`default`, `Cstyle`, `Fstyle`, `snake`, `snakeCstyle`, `snakeFstyle`,
+`folded` for Chain/Ladder/NLegLadder, `rings`/`snake`/`snake_rings` for Honeycomb, `rings` for
+Kagome), for any sizes. -/
+theorem C19_named_order_perm (cls : Cls) (shape : List Nat) (s : String) (o : List (List Nat))
+    (hs : ShapeFor cls shape) (hpos : ∀ L ∈ shape, 0 < L)
+    (h : clsOrdering cls shape (.name s) = some o) : o.Perm (cstyle shape) := by
+  have hne := shapeFor_ne hs
+  have base := fun h' => baseOrdering_name_perm shape s o hne hpos h'
+  cases cls
+  case lattice => exact base h
+  case simple => exact base h
+  case square => exact base h
+  case triangular => exact base h
+  case chain =>
+    obtain ⟨L, rfl⟩ := hs
+    simp only [clsOrdering, List.headD_cons] at h
+    split at h
+    · cases h; exact rowsAlong_perm _ L 1 (List.Perm.refl _)
+    · split at h
+      · cases h; exact rowsAlong_perm _ L 1 (foldedIdx_perm L)
+      · exact base h
+  case ladder =>
+    obtain ⟨L, rfl⟩ := hs
+    simp only [clsOrdering, List.headD_cons] at h
+    split at h
+    · cases h; exact rowsAlong_perm _ L 2 (List.Perm.refl _)
+    · split at h
+      · cases h; exact rowsAlong_perm _ L 2 (foldedIdx_perm L)
+      · split at h
+        · cases h
+        · exact base h
+  case nleg =>
+    obtain ⟨L, Lu, rfl⟩ := hs
+    simp only [clsOrdering, List.headD_cons] at h
+    have hLu : [L, Lu].getD 1 0 = Lu := rfl
+    rw [hLu] at h
+    split at h
+    · cases h; exact rowsAlong_perm _ L Lu (List.Perm.refl _)
+    · split at h
+      · cases h; exact rowsAlong_perm _ L Lu (foldedIdx_perm L)
+      · exact base h
+  case honeycomb =>
+    obtain ⟨Lx, Ly, rfl⟩ := hs
+    simp only [clsOrdering] at h
+    split at h
+    · cases h; exact getOrder_perm _ _ _ hpos (by intro p hp; cases hp; rfl)
+    · split at h
+      · cases h; exact getOrder_perm _ _ _ hpos (by intro p hp; cases hp; rfl)
+      · exact base h
+  case kagome =>
+    obtain ⟨Lx, Ly, rfl⟩ := hs
+    simp only [clsOrdering] at h
+    split at h
+    · cases h
+      refine getOrderGrouped_perm _ _ none (by simp) (by intro p hp; cases hp) ?_
+      show [[0, 2], [1]].flatten.Perm (List.range 3)
+      decide
+    · exact base h
+
+/-- **Bridge**: an order that is a permutation of the grid (natural-number rows, as produced by the
+ordering functions) is, after the cast to `intp` done by the `order` setter, a `GridOrder` — the
+hypothesis of the index-map and coupling theorems (`C19_roundtrip_*`, `C19_coupOK_regular`). -/
+theorem C19_order_gridOrder (shape : List Nat) (o : List (List Nat)) (h : o.Perm (cstyle shape)) :
+    GridOrder shape (castRows o) :=
+  gridOrder_of_perm h
+
+/-- Non-vacuity / concrete instances: a snake order with F-style priority on a 3x2 grid with two
+sites per cell, the Honeycomb `snake` order and the Kagome `rings` order are permutations of their
+grids, hence `GridOrder`s. -/
+example : (getOrder [3, 2, 2] [true, true, true] (some [2, 1, 0])).Perm (cstyle [3, 2, 2]) :=
+  C19_order_perm _ _ _ (by decide) (by intro p hp; cases hp; rfl)
+
+example : ∀ o, clsOrdering .honeycomb [2, 3, 2] (.name "snake") = some o → GridOrder [2, 3, 2] (castRows o) :=
+  fun o h => C19_order_gridOrder _ o (C19_named_order_perm .honeycomb _ "snake" o ⟨2, 3, rfl⟩ (by decide) h)
+
+example : ∀ o, clsOrdering .kagome [2, 2, 3] (.name "rings") = some o → o.Perm (cstyle [2, 2, 3]) :=
+  fun o h => C19_named_order_perm .kagome _ "rings" o ⟨2, 2, rfl⟩ (by decide) h
